@@ -30,14 +30,15 @@ def run(pid, tier, seed):
   for ev, clauses in rejx:
     for cl in clauses:
       ident = {"clause": cl, "alphabet": "extended"}
-      if cl in ("wrong_layer_class", "wrong_weight_quantizers", "wrong_activation"):
-        want_kinds = sorted({l["kind"] for l, r in zip(ev["model"], ev["res"])})
+      if "adaptive" in ev:
+        ident["kinds"] = "Activation->QAdaptiveActivation"
+      elif cl in ("wrong_layer_class", "wrong_weight_quantizers", "wrong_activation"):
         ident["kinds"] = ",".join(sorted({l["kind"] for l in ev["model"]}))
       if cl == "conversion_raises":
         ident["exception"] = ev.get("exc_text", "")[:60]
       chk.violation(ident, ev)
   events = events + evx
   for ev in events:
-    chk.key(json.dumps([ev["model"], ev["dict"], ev["transfer"]], sort_keys=True))
+    chk.key(json.dumps([ev.get("model", "adaptive"), ev.get("dict", ""), ev["transfer"]], sort_keys=True))
   chk.sample({k: events[0][k] for k in ("model", "dict", "res")})
   return chk.finish()
